@@ -1140,6 +1140,24 @@ class ReactionItem(Reaction):
         if basis: set_reaction_basis(copy, basis)
         return copy
     
+    def _keep_row(self, stoichiometry):
+        # An in-place sum binds a new array to the item; the parent set must describe
+        # the same reaction, so write the result into the set's own row instead.
+        if self._stoichiometry is not stoichiometry:
+            stoichiometry.copy_like(self._stoichiometry)
+            self._stoichiometry = stoichiometry
+        return self
+    
+    def __iadd__(self, rxn):
+        stoichiometry = self._stoichiometry
+        Reaction.__iadd__(self, rxn)
+        return self._keep_row(stoichiometry)
+    
+    def __isub__(self, rxn):
+        stoichiometry = self._stoichiometry
+        Reaction.__isub__(self, rxn)
+        return self._keep_row(stoichiometry)
+    
     @property
     def X(self):
         """[float] Reaction conversion as a fraction."""
